@@ -40,7 +40,7 @@ func (c12) Meta() fw.Meta {
 			"an absent series is the same observable as the all-zero empty series (nil vs zero-length), see DESIGN.md section 4 (fix 0902534)",
 			"error texts are not compared, only success/failure and the not-exist classification",
 		},
-		Obligations: []string{"pairs_view", "pairs_view_raw", "pairs_sum", "pairs_files", "pairs_items", "pairs_success_with_data", "pairs_notexist", "pairs_error", "absent_series_pairs", "escaped_name_pairs", "past_window_pairs", "bad_pattern_pairs", "cli_pairs", "cli_copy_pairs", "cli_diff_remote_side", "path_below_regular_file_pairs", "cases_with_concurrent_clients", "listings_repeated_after_tree_change", "reads_while_writer_holds_file", "server_socket_writes_delayed", "concurrent_noise_requests_served"},
+		Obligations: []string{"pairs_view", "pairs_view_raw", "pairs_sum", "pairs_files", "pairs_items", "pairs_success_with_data", "pairs_notexist", "pairs_error", "absent_series_pairs", "escaped_name_pairs", "past_window_pairs", "bad_pattern_pairs", "cli_pairs", "cli_copy_pairs", "cli_diff_remote_side", "path_below_regular_file_pairs", "cases_with_concurrent_clients", "listings_repeated_after_tree_change", "cases_in_a_non_utc_zone", "reads_while_writer_holds_file", "server_socket_writes_delayed", "concurrent_noise_requests_served"},
 		Workers:     8,
 	}
 }
@@ -111,6 +111,13 @@ func (c12) Run(c *fw.Ctx) {
 	u, served, ok := srv(c)
 	if !ok {
 		return
+	}
+	// the client's local time zone is an environment condition: remote and local results must not depend on it
+	if z := []*time.Location{nil, time.FixedZone("JST", 9*3600), time.FixedZone("PST", -8*3600)}[c.Index%3]; z != nil {
+		oldLocal := time.Local
+		time.Local = z
+		defer func() { time.Local = oldLocal }()
+		c.Count("cases_in_a_non_utc_zone", 1)
 	}
 	caseDir := fmt.Sprintf("c12-%d-%d", c.Seed, c.Index)
 	root := filepath.Join(served, caseDir)
